@@ -303,6 +303,64 @@ SKIP_ATTRS = {"application", "from_values", "make_form_data_parser", "on_json_lo
 CALLS = {"get_data": {}, "get_json": {"silent": True}}
 
 
+ACCEPT_CLS = {"accept_mimetypes": ("mime", "HTTP_ACCEPT", MIME_OFFERS), "accept_charsets": ("charset", "HTTP_ACCEPT_CHARSET", CHARSET_OFFERS),
+              "accept_encodings": ("accept", "HTTP_ACCEPT_ENCODING", ENC_OFFERS), "accept_languages": ("lang", "HTTP_ACCEPT_LANGUAGE", LANG_OFFERS)}
+TRUSTED_SETS = [["localhost"], [".example.com", "localhost:8080"], ["[::1]", "a"], ["\xe9.example", ".a"], []]
+EPOCH_ORD = 1
+
+
+def fq(x):
+    return repr(float(x))
+
+
+def c_accept_use(acc, offers):
+    """items in the object's order, then membership / quality / best_match over well-formed offers"""
+    items = out_list(hs(v) + ":" + fq(q) for v, q in acc)
+    return items + "|" + out_list(b01(o in acc) for o in offers) + "|" + out_list(fq(acc.quality(o)) for o in offers) + "|" + opt(hs, acc.best_match(offers))
+
+
+def dt_seconds(dt):
+    from datetime import datetime, timezone
+
+    d = dt - datetime(1, 1, 1, tzinfo=timezone.utc)
+    return d.days * 86400 + d.seconds
+
+
+def strip_port(h):
+    import re
+
+    if h.startswith("["):
+        m = re.fullmatch(r"(\[[^\]]*\])(:.*)?", h, re.S)
+        return m.group(1) if m else h
+    return h.split(":", 1)[0]
+
+
+def idna_table(strings):
+    out, seen = [], set()
+    for x in strings:
+        if x in seen:
+            continue
+        seen.add(x)
+        try:
+            a = x.encode("idna").decode("ascii")
+        except UnicodeError:
+            a = None
+        out.append(hs(x) + ":" + opt(hs, a))
+    return ",".join(out) or "[]"
+
+
+def group_pairs(out):
+    """MultiDict.items(multi=True) order: keys by first occurrence, each with all its values"""
+    if out == "[]" or out.startswith("EXC"):
+        return out
+    pairs = [p.split(":") for p in out.split(",")]
+    keys = []
+    for k, _ in pairs:
+        if k not in keys:
+            keys.append(k)
+    return ",".join(f"{k}:{v}" for kk in keys for k, v in pairs if k == kk)
+
+
 def request_attrs():
     from werkzeug.wrappers import Request
 
@@ -325,16 +383,32 @@ def mk_environ(env):
     return e
 
 
-def run_attr(attr, env):
+def run_attr(attr, env, trusted=None):
     from werkzeug.wrappers import Request
 
     r = Request(mk_environ(env))
+    if trusted is not None:
+        r.trusted_hosts = [unhs(t) for t in trusted]
     if attr in CALLS:
         v = getattr(r, attr)(**CALLS[attr])
     else:
         v = getattr(r, attr)
         if callable(v) and not hasattr(v, "__len__") and attr not in ("stream", "input_stream", "user_agent"):
             return "ok:method"
+    if attr in ACCEPT_CLS:
+        return "V:" + c_accept_use(v, ACCEPT_CLS[attr][2])
+    if attr in ("args", "cookies"):
+        return "V:" + out_list(hs(k) + ":" + hs(x) for k, x in v.items(multi=True))
+    if attr == "mimetype":
+        return "V:" + hs(v)
+    if attr == "mimetype_params":
+        return "V:" + c_pairs(v.items())
+    if attr == "is_json":
+        return "V:" + b01(v)
+    if attr == "host":
+        return "V:" + hs(v)
+    if attr == "if_range":
+        return "V:" + opt(hs, v.etag) + "|" + ("~" if v.date is None else str(dt_seconds(v.date)))
     if attr == "max_forwards":
         return "V:" + opt(str, v)
     if attr == "content_length":
@@ -345,8 +419,6 @@ def run_attr(attr, env):
     if pa is not None and pa[0] in env:
         # same observation as the parser case, on the object the attribute returned
         return "V:" + canon_value(pa[1], v)
-    if attr in ("mimetype_params",):
-        return "ok:" + c_pairs(v.items())
     if attr in ("args", "form", "values", "cookies", "files"):
         list(v.items(multi=True)) if hasattr(v, "items") else None
     if attr in ("url", "base_url", "host_url", "root_url", "url_root", "host", "full_path", "path"):
@@ -441,6 +513,11 @@ class Hostile(Stream):
             ("data", "CONTENT_TYPE", "application/x-www-form-urlencoded; charset=\xff"), ("form", "CONTENT_LENGTH", "99999999999999999999"), ("get_json", "CONTENT_TYPE", "application/json; charset=x"),
             ("mimetype_params", "CONTENT_TYPE", "a/b; k*=utf-8''%ff; *0=z"), ("user_agent", "HTTP_USER_AGENT", "\xff"), ("access_control_request_headers", "HTTP_ACCESS_CONTROL_REQUEST_HEADERS", 'a, "'),
         ]]
+        + [{"k": "a", "attr": "host", "env": ({} if h is None else {"HTTP_HOST": hs(h)}), "trusted": [hs(t) for t in tr]} for h, tr in [
+            ("localhost", ["localhost"]), ("localhost:80", ["localhost"]), ("evil.example", ["localhost"]), ("a.example.com", [".example.com"]), ("example.com", [".example.com"]),
+            ("\xe9.example", ["\xe9.example"]), ("a..b", ["a..b"]), ("[::1]:8080", ["[::1]"]), ("[::1", ["[::1"]), ("", ["localhost"]), (None, ["localhost"]), (None, ["localhost:8080"]),
+            ("LOCALHOST", ["localhost"]), ("a" * 64 + ".x", [".x"]), ("x:y:z", ["x"]), ("localhost", []),
+        ]]
     )
 
     def cases(self, rng, tier):
@@ -457,7 +534,10 @@ class Hostile(Stream):
                     env[ATTR_VAR[attr]] = hs(hostile_any(rng))
                 for _ in range(rng.choice([0, 0, 1, 2, 4])):
                     env[rng.choice(CLIENT_VARS)] = hs(hostile(rng))
-                yield {"k": "a", "attr": attr, "env": env}
+                case = {"k": "a", "attr": attr, "env": env}
+                if attr == "host" and rng.random() < 0.5:
+                    case["trusted"] = [hs(t) for t in rng.choice(TRUSTED_SETS)]
+                yield case
 
     #: after the first hang nothing else is evaluated (the remaining cases are marked skipped and
     #: ignored by oracle and model comparison): a non-terminating change must not turn the check
@@ -472,7 +552,7 @@ class Hostile(Stream):
         try:
             if case["k"] == "p":
                 return timed(lambda: run_parser(case["name"], unhs(case["s"])))
-            return timed(lambda: run_attr(case["attr"], case["env"]))
+            return timed(lambda: run_attr(case["attr"], case["env"], case.get("trusted")))
         except HTTPException as e:
             return f"HTTP:{e.code}"
         except Timeout:
@@ -487,6 +567,58 @@ class Hostile(Stream):
             cmd = PARSER_CMD.get(case["name"])
             return None if cmd is None else line(cmd, case["s"])
         env = case["env"]
+        attr = case["attr"]
+        import re
+
+        if attr in ACCEPT_CLS:
+            cls, var, offers = ACCEPT_CLS[attr]
+            hdr = env.get(var, "~")
+            if hdr != "~" and re.search(r"\d{15}", unhs(hdr)):
+                return None  # float vs exact decimal: qualities beyond 15 significant digits are outside the model
+            aliases = "[]"
+            if cls == "charset":
+                import codecs
+
+                from werkzeug.http import parse_accept_header
+
+                names = set(offers)
+                if hdr != "~":
+                    try:
+                        names |= {v for v, _ in parse_accept_header(unhs(hdr))}
+                    except Exception:  # noqa: BLE001
+                        return None
+                al = []
+                for n in sorted(names):
+                    try:
+                        al.append(hs(n) + ":" + hs(codecs.lookup(n).name))
+                    except (LookupError, ValueError, UnicodeError):
+                        pass
+                aliases = ",".join(al) or "[]"
+            return line("req.accept", cls, hdr, out_list(hs(o) for o in offers), aliases)
+        if attr == "args":
+            return line("req.args", env.get("QUERY_STRING", "-"))
+        if attr == "cookies":
+            return line("req.cookies", env.get("HTTP_COOKIE", "~"))
+        if attr in ("mimetype", "mimetype_params", "is_json"):
+            return line("req.mimetype", env.get("CONTENT_TYPE", hs("application/x-www-form-urlencoded")))
+        if attr == "host":
+            trusted = case.get("trusted")
+            host = env.get("HTTP_HOST", "~")
+            eff = unhs(host) if host != "~" else "localhost:8080"
+            if eff.endswith(":80"):
+                eff = eff[:-3]
+            need = [strip_port(eff)] + [strip_port(t[1:] if t.startswith(".") else t) for t in map(unhs, trusted or [])]
+            return line("req.host", hs("http"), host, hs("localhost"), 8080, "~" if trusted is None else out_list(trusted), idna_table(need))
+        if attr == "if_range" and "HTTP_IF_RANGE" in env:
+            from werkzeug.http import parse_date
+
+            try:
+                d = parse_date(unhs(env["HTTP_IF_RANGE"]))
+            except Exception:  # noqa: BLE001
+                return None
+            if d is not None and dt_seconds(d) < 0:
+                return None
+            return line("req.ifrange", env["HTTP_IF_RANGE"], "~" if d is None else dt_seconds(d))
         if case["attr"] == "max_forwards":
             return line("attr.maxfwd", env.get("HTTP_MAX_FORWARDS", "~"))
         if case["attr"] == "content_length":
@@ -501,8 +633,31 @@ class Hostile(Stream):
     def canon_model(self, case, out):
         if case["k"] == "p":
             name = case["name"]
-        elif case["attr"] in ("max_forwards", "content_length", "access_control_request_headers"):
+        elif case["attr"] in ("max_forwards", "content_length", "access_control_request_headers", "if_range"):
             return out if out.startswith("EXC:") else "V:" + out
+        elif case["attr"] in ("args", "cookies"):
+            return out if out.startswith(("EXC:", "BAD", "UNKNOWN")) else "V:" + group_pairs(out)
+        elif case["attr"] == "host":
+            if out == "EXC:SecurityError":
+                return "HTTP:400"
+            return out if out.startswith(("EXC:", "BAD", "UNKNOWN")) else "V:" + out
+        elif case["attr"] in ("mimetype", "mimetype_params", "is_json"):
+            if out.startswith(("EXC:", "BAD", "UNKNOWN")):
+                return out
+            mt, ps, js = out.split("|")
+            return "V:" + {"mimetype": mt, "mimetype_params": ps, "is_json": js}[case["attr"]]
+        elif case["attr"] in ACCEPT_CLS:
+            if out.startswith(("EXC:", "BAD", "UNKNOWN")):
+                return out
+            items, cont, qual, best = out.split("|")
+
+            def q(x):
+                n, sc = x.split("/")
+                return fq(int(n) / 10 ** int(sc))
+
+            it = "[]" if items == "[]" else ",".join(p.split("=")[0] + ":" + q(p.split("=")[1]) for p in items.split(","))
+            ql = "[]" if qual == "[]" else ",".join(q(x) for x in qual.split(","))
+            return "V:" + it + "|" + cont + "|" + ql + "|" + best
         else:
             name = ATTR_PARSER[case["attr"]][1]
         if out.startswith("EXC:") or out in ("BAD-ARGS",) or out.startswith("UNKNOWN"):
@@ -560,7 +715,7 @@ class Hostile(Stream):
             env = dict(case["env"])
             env["HTTP_HOST"] = hs("localhost")
             try:
-                run_attr(case["attr"], env)
+                run_attr(case["attr"], env, case.get("trusted"))
             except Exception:  # noqa: BLE001
                 return None
             return "F07d"
